@@ -16,8 +16,10 @@ full clause is proved for all histories that open every quantity type with `AddU
 import Barril.Proofs.RegLemmas
 import Barril.Proofs.RegCacheLemmas
 import Barril.Proofs.RegTableLemmas
-import Barril.Gen.ThmReg14uPosc
-import Barril.Gen.ThmReg14cPosc
+import Barril.Proofs.RegIndexLemmas
+import Barril.Gen.ThmReg14ctPosc
+import Barril.Gen.ThmC06Posc
+import Barril.Gen.ThmCorePosc
 import Barril.Gen.ThmReg14uSimple
 import Barril.Gen.ThmReg14cSimple
 import Barril.Proofs.CtorLemmas
@@ -141,7 +143,8 @@ theorem every_unit_builds_scalar (ops : List RegOp) {c : Sym} {ci : CatRow} {l :
 /-- **the shipped POSC database satisfies the invariant** (1548 units, 328 categories today; the
 table theorems are re-proved by `decide +kernel` whenever /repo changes) -/
 theorem posc_RegInv : DbRegInv Gen.poscDb :=
-  dbRegInv_of_all Gen.poscUnits_all_reg14u Gen.poscCats_all_reg14c
+  dbRegInv_of_index Gen.poscC_core Gen.poscTree_complete Gen.poscC_pos Gen.poscTree_sound Gen.poscBases_sound
+    Gen.poscBases_complete Gen.poscBases_ident Gen.poscCats_all_reg14ct
 
 /-- **every unit of the shipped POSC database can be used to build a Scalar without naming a
 category**: its default category — its own `default_category` entry, else its quantity type's
